@@ -14,6 +14,7 @@ import (
 	"github.com/hashicorp/hcl/v2/ext/dynblock"
 	"github.com/hashicorp/hcl/v2/hcldec"
 	"github.com/hashicorp/hcl/v2/hclsyntax"
+	"github.com/hashicorp/hcl/v2/hclwrite"
 	hcljson "github.com/hashicorp/hcl/v2/json"
 	"github.com/zclconf/go-cty/cty"
 	"github.com/zclconf/go-cty/cty/function"
@@ -258,6 +259,33 @@ func All() []Driver {
 			return c
 		}),
 	)
+	// D11: front ends and the writer on different inputs at the same time (no shared object at all:
+	// any cross-talk comes from package-level state)
+	ds = append(ds, Driver{Name: "D11-frontends-3", Doc: "hclwrite.Format, hclwrite.ParseConfig+Bytes and hclsyntax.ParseConfig+evaluate on goroutine-specific sources", Threads: 3, Points: "struct",
+		Setup: func() any { return nil },
+		Thread: func(_ any, i int) string {
+			src := []byte(fmt.Sprintf("a%d   =   [ %d,\"s%d\" ]\nblk \"l%d\" {\n x=l[*].a\n   y = \"${s}-%d\"\n}\n", i, i, i, i, i))
+			var out []string
+			for r := 0; r < 3; r++ {
+				f1 := hclwrite.Format(src)
+				wf, d := hclwrite.ParseConfig(src, "t.hcl", hcl.InitialPos)
+				var b2 []byte
+				if wf != nil {
+					b2 = wf.Bytes()
+				}
+				out = append(out, string(f1), string(b2), fmt.Sprint(d.HasErrors()))
+				if string(hclwrite.Format(f1)) != string(f1) {
+					out = append(out, "not idempotent")
+				}
+			}
+			body := mustBody(string(src), false)
+			attrs, _, _ := body.PartialContent(&hcl.BodySchema{Attributes: []hcl.AttributeSchema{{Name: fmt.Sprintf("a%d", i)}}})
+			for _, at := range attrs.Attributes {
+				v, vd := at.Expr.Value(ctxFor(i))
+				out = append(out, show(v, vd))
+			}
+			return strings.Join(out, "\n")
+		}})
 	// D6: contexts that are children of one shared parent
 	ds = append(ds, Driver{Name: "D6-shared-parent-3", Doc: "child contexts of one shared parent context: l[*].a + n", Threads: 3,
 		Setup: func() any {
@@ -314,7 +342,7 @@ func All() []Driver {
 	)
 	for i := range ds {
 		d := &ds[i]
-		body := strings.HasPrefix(d.Name, "D8") || strings.HasPrefix(d.Name, "D9")
+		body := strings.HasPrefix(d.Name, "D8") || strings.HasPrefix(d.Name, "D9") || strings.HasPrefix(d.Name, "D11")
 		if d.Points == "" {
 			d.Points = "all"
 			if body {
